@@ -263,6 +263,17 @@ class Future(BaseFuture):
         else:
             return str(value)
 
+    @property
+    def value(self) -> Optional[int]:
+        """Get the value of the future.
+        If it's not set yet, `None` is returned."""
+        # An array entry can be changed by later subroutines, so always look at
+        # the shared memory first.
+        value = self._try_get_value()
+        if value is not None:
+            return value
+        return self._value
+
     def _try_get_value(self) -> Optional[int]:
         if not isinstance(self._index, int):
             raise NonConstantIndexError("index is not constant and cannot be resolved")
